@@ -39,17 +39,37 @@ static inline void iora_cb_onClose(TcpEngine *self, SessionId sid, TransportErro
     for (size_t i = 0; i < IORA_NS; i++) if (i < self->_sessions.n && self->_sessions.v[i]->id == sid) G_cbw_in_table = 1;
   }
 }
+bool G_sd_cleared;               /* this shutdownDrain has cleared the table */
 /* `_sessions.clear()`: under the write lock; destroys every session object */
 static inline void TcpEngine_sessions_clear(TcpEngine *self)
 {
   IORA_ASSERT(self->_sessionRwMutex.held, "LK3 _sessions is modified with _sessionRwMutex held (unique lock)");
   for (size_t i = 0; i < IORA_NS; i++) if (i < self->_sessions.n) free(self->_sessions.v[i]);
-  self->_sessions.n = 0;
+  self->_sessions.n = 0; G_sd_cleared = 1;
 }
-/* process(): the commands it handles are outside this proof. What the proof covers instead: ANY commands may sit in _cmds when
- * shutdownDrain closes the queue (other threads - and the close callbacks themselves - enqueue while it runs), so the stub handles
- * nothing and _cmds is nondeterministic at entry. */
-static inline void TcpEngine_process(TcpEngine *self) { (void)self; }
+/* process(): the final drain of the command queue. Its ORDER inside shutdownDrain is an obligation (SD-O): it must run before this
+ * shutdownDrain has closed any session and before the table is cleared - a command executed later (a queued Connect runs doConnect: new
+ * session, gauge + 1, onConnect) would create state that nothing closes any more. Its EFFECT here: it may execute one queued Connect, i.e.
+ * insert one new open session (fresh id G_proc_sid, fd G_proc_fd, with its fd tag, gauge + 1) - so a drain that runs after the close loop also
+ * fails "table empty / gauge zero / every announced id closed". Commands that arrive AFTER it (other threads, close callbacks) are the
+ * nondeterministic content of _cmds at entry, which it does not consume. */
+unsigned G_proc_calls; bool G_proc_inserted; SessionId G_proc_sid; int G_proc_fd; bool IORA_PROC_MAY_INSERT;
+static inline void TcpEngine_process(TcpEngine *self)
+{
+  IORA_ASSERT(!G_sd_cleared && G_cb_calls == 0 && G_fdclose_calls == 0,
+              "SD-O the final process() of the command queue runs BEFORE shutdownDrain closes any session or clears the table (a Connect executed later is never closed)");
+  if (G_proc_calls < 0x7fffffffu) G_proc_calls++;
+  if (IORA_PROC_MAY_INSERT && !G_proc_inserted && self->_sessions.n < IORA_NS && self->_fdTags.n < IORA_NT && nondet_bool())
+  {
+    Session *s = malloc(sizeof(Session)); __CPROVER_assume(s != 0);
+    Session z = {0}; *s = z; s->id = G_proc_sid; s->fd = G_proc_fd; s->connectPending = 1;
+    self->_sessions.v[self->_sessions.n++] = s;
+    Tag *t = malloc(sizeof(Tag)); __CPROVER_assume(t != 0); t->isListener = 0; t->lst = 0; t->sess = s;
+    self->_fdTags.fd[self->_fdTags.n] = s->fd; self->_fdTags.v[self->_fdTags.n] = t; self->_fdTags.n++;
+    self->_atomicStats.sessionsCurrent++;
+    G_proc_inserted = 1;
+  }
+}
 static inline void TcpEngine_freeTls(TcpEngine *self) { (void)self; }
 unsigned G_promise_sets;
 static inline void iora_promise_set(iora_promise *p, bool v) { if (p->set_calls < 1000) p->set_calls++; p->value = v; if (G_promise_sets < 0x7fffffffu) G_promise_sets++; }
